@@ -44,25 +44,21 @@ inductive Step where
   | stamp (from_ to_ : List Id) (isUpgrade : Bool) (branchMove : Bool)      -- `StampStep`
   deriving Repr, DecidableEq
 
-/-- `RevisionStep._unmerge_to_revisions` (downgrade: `to_revisions` = normalized down revisions) -/
+/-- `RevisionStep._unmerge_to_revisions` (downgrade: `to_revisions` = normalized down revisions):
+    drop what the other heads imply, then what another re-inserted revision implies -/
 def unmergeToRevisions (m : LMap) (rows : List Id) (r : Id) : List Id :=
   let to := m.normDownOf r
   let other := rows.filter (· != r)
-  if !other.isEmpty then
-    let anc := m.ancestors other
-    to.filter (· ∉ anc)
-  else
-    let anc := to.flatMap (fun t => (m.ancestors [t]).filter (· != t))
-    to.filter (· ∉ anc)
+  let to1 := if !other.isEmpty then to.filter (· ∉ m.ancestors other) else to
+  let anc := to1.flatMap (fun t => (m.ancestors [t]).filter (· != t))
+  to1.filter (· ∉ anc)
 
 /-- `RevisionStep.merge_branch_idents`: the `from_revisions` that really are rows to fold -/
 def mergeFromRevisions (m : LMap) (rows : List Id) (r : Id) : List Id :=
   let from_ := m.normDownOf r
   let other := rows.filter (· ∉ from_)
-  if !other.isEmpty then
-    let anc := m.ancestors other
-    from_.filter (· ∉ anc)
-  else from_
+  let from1 := if !other.isEmpty then from_.filter (· ∉ m.ancestors other) else from_
+  from1.filter (· ∈ rows)
 
 /-- statements `HeadMaintainer.update_to_step` issues for a step (decision order: delete,
     create, merge, unmerge, update) -/
@@ -134,6 +130,35 @@ def runSteps (m : LMap) : List Id → List Step → Except Err (List (List Id))
 
 /-! ## `ScriptDirectory._stamp_revs` -/
 
+/-- one destination of `_stamp_revs`, given the heads it may move -/
+def stampDest (m : LMap) (filtered : List Id) : Option Id → Except Err (List Step)
+  | none => pure (filtered.map (fun h => Step.stamp [h] [] false true))
+  | some dest =>
+    if dest ∈ filtered then pure []
+    else
+      let desc := m.descendants [dest]
+      let anc := m.ancestors [dest]
+      if filtered.any (· ∈ desc) then
+        -- `assert not ancestors.intersection(filtered_heads)`
+        if filtered.any (· ∈ anc) then throw Err.assertion
+        else pure [Step.stamp filtered [dest] false false]
+      else if filtered.any (· ∈ anc) then pure [Step.stamp filtered [dest] true false]
+      else pure [Step.stamp [] [dest] true true]
+
+/-- the `for dest in dests` loop: with several destinations each one claims the remaining
+    heads that share a lineage with it -/
+def stampLoop (m : LMap) (multi : Bool) : List Id → List (Option Id) → Except Err (List Step)
+  | _, [] => pure []
+  | remaining, d :: rest => do
+    let (filtered, remaining') ← match d, multi with
+      | some dest, true => do
+        let f ← filterForLineage m remaining dest true
+        pure (f, remaining.filter (· ∉ f))
+      | _, _ => pure (remaining, remaining)
+    let s ← stampDest m filtered d
+    let r ← stampLoop m multi remaining' rest
+    pure (s ++ r)
+
 def stampRevs (m : LMap) (targets : List String) (rows : List Id) : Except Err (List Step) := do
   let headsRevs ← getRevisionsMany m rows
   let headsRevs := headsRevs.filterMap id
@@ -142,21 +167,7 @@ def stampRevs (m : LMap) (targets : List String) (rows : List Id) : Except Err (
   let filtered := dedupe fh.flatten
   let dests ← getRevisionsMany m targets
   let dests := if dests.isEmpty then [none] else dests
-  let steps ← dests.mapM (fun d =>
-    match d with
-    | none => pure (filtered.map (fun h => Step.stamp [h] [] false true))
-    | some dest =>
-      if dest ∈ filtered then pure []
-      else
-        let desc := m.descendants [dest]
-        let anc := m.ancestors [dest]
-        if filtered.any (· ∈ desc) then
-          -- `assert not ancestors.intersection(filtered_heads)`
-          if filtered.any (· ∈ anc) then throw Err.assertion
-          else pure [Step.stamp filtered [dest] false false]
-        else if filtered.any (· ∈ anc) then pure [Step.stamp filtered [dest] true false]
-        else pure [Step.stamp [] [dest] true true])
-  pure steps.flatten
+  stampLoop m (dests.length > 1) filtered dests
 
 /-- `command.stamp` without `--purge`: steps then bookkeeping -/
 def stamp (m : LMap) (targets : List String) (rows : List Id) : Except Err (List Id) := do
